@@ -6,7 +6,7 @@
    `sval` of it; both entry points (T::deserialize(value), T::deserialize(&value)).
    The model is of the code with the repairs fixes/D7-deser-by-ref.patch and
    fixes/D14-newtype-struct-deser.patch applied (`Fixed`); `Pinned` is the tree before them. *)
-From TeraV Require Import Model.Value Model.Format Model.Serde Proofs.SerdeProofs Proofs.FormatProofs Proofs.SerdePinned.
+From TeraV Require Import Model.Value Model.Format Model.Serde Proofs.SerdeProofs Proofs.FormatProofs Proofs.SerdePinned Proofs.ReserProofs.
 From Coq Require Import Permutation Sorted.
 
 (* converting a value and reading it back into the same type returns the original, through either
@@ -83,6 +83,36 @@ Theorem C19_context_paths_agree : forall xs es,
   /\ insert_all xs [] = ROk (insert_value_all es []).
 Proof. exact context_paths_agree. Qed.
 
+(* a Value sent through serde AGAIN (`impl Serialize for Value` / `for Key`: Context::insert(k, &value),
+   Value::from_serializable(&value)).  For every converted value — whatever it was converted from —
+   the result is the same value (same kinds, same integer representations, same keys of the same
+   key kind, same order; only the String-vs-Str variant of string keys, which no operation of the
+   engine observes, may differ) *)
+Theorem C19_reserialize_identity : forall sv x,
+  ser sv = ROk x -> exists y, reser x = ROk y /\ value_same y x = true.
+Proof. exact reserialize_identity. Qed.
+
+(* for ALL well-formed values (bytes, 128-bit integers, undefined, safe strings, every key kind):
+   never an error, and the result is `renorm` of the value: undefined -> none, the safe flag is
+   dropped, borrowed string keys become owned; nothing else changes ... *)
+Theorem C19_reserialize_all_values : forall v, wfv v -> reser v = ROk (renorm v).
+Proof. exact reser_renorm. Qed.
+
+(* ... so the values without undefined, safe strings and borrowed keys are exact fixed points *)
+Theorem C19_reserialize_fixed_point : forall v, wfv v -> fixedv v -> reser v = ROk v.
+Proof. exact reser_fixed_point. Qed.
+
+(* the model of `impl Serialize for Value` is the existing serialiser applied to the data-model
+   term a Value emits *)
+Theorem C19_reser_is_ser : forall v, bytes_free v -> reser v = ser (to_sval v).
+Proof. exact reser_is_ser. Qed.
+
+(* `insert(k, &converted)` = `insert_value(k, converted)` *)
+Theorem C19_insert_eq_insert_value : forall sv x k c,
+  ser sv = ROk x ->
+  exists y, insert_reser k x c = ROk (insert_value k y c) /\ value_same y x = true.
+Proof. exact insert_eq_insert_value. Qed.
+
 (* the pinned tree violates the round trip: D7 (by reference: options and enums), D14 (newtype
    structs, either entry point, silently altered) *)
 Theorem C19_D7_pinned_byref_refuted :
@@ -113,6 +143,9 @@ Print Assumptions C19_print_determined_by_data.
 Print Assumptions C19_print_map_order_irrelevant.
 Print Assumptions C19_print_integers_exact.
 Print Assumptions C19_context_paths_agree.
+Print Assumptions C19_reserialize_identity.
+Print Assumptions C19_reserialize_all_values.
+Print Assumptions C19_insert_eq_insert_value.
 
 (* non-vacuity *)
 Definition ex_ty : ty :=
@@ -148,4 +181,10 @@ Example C19_ex_print_sorted :
   format (fun _ => []) (fun s => [34%N] ++ s ++ [34%N]) (fun _ => [])
          (VMap [(KStr [98%N] true, VInt U64 1); (KStr [97%N] false, VArr [VBool true; VNone])])
   = [123; 34; 97; 34; 58; 32; 91; 116; 114; 117; 101; 44; 32; 93; 44; 32; 34; 98; 34; 58; 32; 49; 125]%N.
+Proof. vm_compute. reflexivity. Qed.
+
+(* a bool-keyed map stays bool-keyed when it goes through serde again *)
+Example C19_ex_reser_bool_keys :
+  res_bind (ser (SMap [(SBool true, SStr [121%N]); (SBool false, SStr [110%N])])) reser
+  = ROk (VMap [(KBool true, VStr [121%N] false); (KBool false, VStr [110%N] false)]).
 Proof. vm_compute. reflexivity. Qed.
